@@ -192,7 +192,8 @@ Definition compile (O : oracles) (p : pool) (o : op) : option (list l2op) :=
   | OCsvRoundTrip i =>
     Some (generic (with_frame p i (fun f => do b <- op_to_csv O f; op_from_csv O b)))
   (* observations: no slice is written *)
-  | OGroupby _ _ | OToCSV _ | ORow _ _ | OColumnNames _ | ONrows _ | ONcols _ | OAgg _ _ => Some []
+  | OGroupby _ _ | OToCSV _ | ORow _ _ | OColumnNames _ | ONrows _ | ONcols _ | OAgg _ _ | OString _ | OSelect _ _ | OColAt _ _ _ | OSeries _ _ _
+  | OPlot _ _ _ _ _ _ | OGroupbyOther _ _ => Some []
   (* edits in place *)
   | OAppendRow i r =>
     on_frame p i (Some []) (fun f =>
@@ -717,7 +718,8 @@ Definition is_deriving (o : op) : bool :=
   end.
 Definition is_observation (o : op) : bool :=
   match o with
-  | OGroupby _ _ | OToCSV _ | ORow _ _ | OColumnNames _ | ONrows _ | ONcols _ | OAgg _ _ => true
+  | OGroupby _ _ | OToCSV _ | ORow _ _ | OColumnNames _ | ONrows _ | ONcols _ | OAgg _ _ | OString _ | OSelect _ _ | OColAt _ _ _ | OSeries _ _ _
+  | OPlot _ _ _ _ _ _ | OGroupbyOther _ _ => true
   | _ => false
   end.
 
